@@ -135,17 +135,17 @@ static void blk_squares(void) {
 	BN_free(A);
 }
 /* ---------------- points ---------------- */
-#define NPTS 16
-static EC_POINT *RPT[NPTS]; static SM2_Z256_POINT LPT[NPTS]; static const char *PNAME[NPTS] = { "O", "O(0,0,0)", "G", "-G", "2G", "P", "-P", "2P", "Q", "P(Z=7)", "G(Z=R-ish)", "3G", "(0,sqrt(b))", "(0,-sqrt(b))", "P(storedZ=1)", "G(storedZ=2)" }; /* the last two: representatives whose Z in the library's (Montgomery) storage is the WORD 1 / 2, i.e. z = R^-1, 2R^-1: what a test "Z == 1" written against the wrong constant mistakes for a normalised point */
+#define NPTS 17
+static EC_POINT *RPT[NPTS]; static SM2_Z256_POINT LPT[NPTS]; static const char *PNAME[NPTS] = { "O", "O(0,0,0)", "G", "-G", "2G", "P", "-P", "2P", "Q", "P(Z=7)", "G(Z=R-ish)", "3G", "(0,sqrt(b))", "(0,-sqrt(b))", "P(storedZ=1)", "G(storedZ=2)", "P(storedZ=2^256-n)" }; /* the last two: representatives whose Z in the library's (Montgomery) storage is the WORD 1 / 2, i.e. z = R^-1, 2R^-1: what a test "Z == 1" written against the wrong constant mistakes for a normalised point */
 static void build_points(void) {
 	const EC_GROUP *g = sr_group(); BN_CTX *c = sr_ctx(); BIGNUM *k = BN_new(), *one = BN_new(), *z = BN_new(); BN_one(one);
 	for (int i = 0; i < NPTS; i++) RPT[i] = EC_POINT_new(g);
 	EC_POINT_set_to_infinity(g, RPT[0]); EC_POINT_set_to_infinity(g, RPT[1]); EC_POINT_copy(RPT[2], EC_GROUP_get0_generator(g)); EC_POINT_copy(RPT[3], RPT[2]); EC_POINT_invert(g, RPT[3], c);
 	EC_POINT_dbl(g, RPT[4], RPT[2], c); BN_hex2bn(&k, "3945208F7B2144B13F36E38AC6D39F95889393692860B51A42FB81EF4DF7C5B8"); EC_POINT_mul(g, RPT[5], k, NULL, NULL, c);
 	EC_POINT_copy(RPT[6], RPT[5]); EC_POINT_invert(g, RPT[6], c); EC_POINT_dbl(g, RPT[7], RPT[5], c); BN_hex2bn(&k, "59276E27D506861A16680F3AD9C02DCCEF3CC1FA3CDBE4CE6D54B80DEAC1BC21"); EC_POINT_mul(g, RPT[8], k, NULL, NULL, c);
-	EC_POINT_copy(RPT[9], RPT[5]); EC_POINT_copy(RPT[10], RPT[2]); EC_POINT_copy(RPT[14], RPT[5]); EC_POINT_copy(RPT[15], RPT[2]); BN_set_word(k, 3); EC_POINT_mul(g, RPT[11], k, NULL, NULL, c);
+	EC_POINT_copy(RPT[9], RPT[5]); EC_POINT_copy(RPT[10], RPT[2]); EC_POINT_copy(RPT[14], RPT[5]); EC_POINT_copy(RPT[15], RPT[2]); EC_POINT_copy(RPT[16], RPT[5]); BN_set_word(k, 3); EC_POINT_mul(g, RPT[11], k, NULL, NULL, c);
 	{ /* the two points with x = 0 (b is a square mod p): a zero coordinate in an otherwise ordinary operand */ BIGNUM *bb = BN_new(), *y0 = BN_new(), *x0 = BN_new(); BN_hex2bn(&bb, "28E9FA9E9D9F5E344D5A9E4BCF6509A7F39789F515AB8F92DDBCBD414D940E93"); if (!BN_mod_sqrt(y0, bb, sr_p(), c)) vh_harness_error("sqrt(b)"); BN_zero(x0); if (!EC_POINT_set_affine_coordinates(g, RPT[12], x0, y0, c)) vh_harness_error("x=0 point"); EC_POINT_copy(RPT[13], RPT[12]); EC_POINT_invert(g, RPT[13], c); BN_free(bb); BN_free(y0); BN_free(x0); }
-	for (int i = 0; i < NPTS; i++) { BN_one(z); if (i == 9) BN_set_word(z, 7); if (i == 10) { BN_copy(z, sr_p()); BN_sub_word(z, 5); } if (i == 14) BN_copy(z, RPI); if (i == 15) BN_mod_lshift1(z, RPI, sr_p(), c); sr_point_to_jac_mont(RPT[i], z, LPT[i].X, LPT[i].Y, LPT[i].Z); }
+	for (int i = 0; i < NPTS; i++) { BN_one(z); if (i == 9) BN_set_word(z, 7); if (i == 10) { BN_copy(z, sr_p()); BN_sub_word(z, 5); } if (i == 14) BN_copy(z, RPI); if (i == 15) BN_mod_lshift1(z, RPI, sr_p(), c); if (i == 16) { /* stored Z = the Montgomery one of the OTHER modulus (R mod n) */ BN_mod_mul(z, RN, RPI, sr_p(), c); } sr_point_to_jac_mont(RPT[i], z, LPT[i].X, LPT[i].Y, LPT[i].Z); }
 	memset(&LPT[1], 0, sizeof LPT[1]); /* the all-zero representation the library itself produces for [0]P */
 	BN_free(k); BN_free(one); BN_free(z);
 }
@@ -215,8 +215,8 @@ static void scalar_case(const BIGNUM *k, const char *what) {
 	const EC_GROUP *g = sr_group(); BN_CTX *c = sr_ctx(); uint64_t kl[4]; sr_bn_to_limbs(kl, k); EC_POINT *e = EC_POINT_new(g); SM2_Z256_POINT r; char key[128];
 	uint64_t kh = vh_hash(kl, 32, 0);
 	sm2_z256_point_mul_generator(&r, kl); EC_POINT_mul(g, e, k, NULL, NULL, c); vh_eval(vh_mix(kh + 1)); if (!pt_eq(&r, e)) { snprintf(key, sizeof key, "C13:point_mul_generator:%s", what); vh_viol(key, "\"k\":\"%s\"", lhex(kl)); }
-	static const int PI[] = { 2, 5, 9, 10, 14, 15 }; /* G, P, P(Z=7), G(Z!=1), P and G with the stored Z word 1 / 2 */
-	for (int pi = 0; pi < 6; pi++) { int i = PI[pi]; EC_POINT_mul(g, e, NULL, RPT[i], k, c);
+	static const int PI[] = { 2, 5, 9, 10, 14, 15, 16 }; /* G, P, P(Z=7), G(Z!=1), P and G with the stored Z word 1 / 2 */
+	for (int pi = 0; pi < 7; pi++) { int i = PI[pi]; EC_POINT_mul(g, e, NULL, RPT[i], k, c);
 		sm2_z256_point_mul(&r, kl, &LPT[i]); vh_eval(vh_mix(kh + 10 + pi)); if (!pt_eq(&r, e)) { snprintf(key, sizeof key, "C13:point_mul:%s:%s", PNAME[i], what); vh_viol(key, "\"k\":\"%s\"", lhex(kl)); }
 		SM2_Z256_POINT T[16]; sm2_z256_point_mul_pre_compute(&LPT[i], T); sm2_z256_point_mul_ex(&r, kl, T); vh_eval(vh_mix(kh + 20 + pi)); if (!pt_eq(&r, e)) { snprintf(key, sizeof key, "C13:point_mul_ex:%s:%s", PNAME[i], what); vh_viol(key, "\"k\":\"%s\"", lhex(kl)); }
 		if (pi < 2 || pi == 4) { /* [k]P + [s]G for s in {k, 1, n-k} */ BIGNUM *s = BN_new(); for (int sv = 0; sv < 3; sv++) { if (sv == 0) BN_copy(s, k); else if (sv == 1) BN_one(s); else { BN_nnmod(s, k, sr_n(), c); BN_sub(s, sr_n(), s); BN_mask_bits(s, 256); }
